@@ -37,7 +37,7 @@ def val(o):
 
 
 def make_case(rng, tier):
-    kinds = ['ew', 'ew', 'bin', 'bin', 'binc', 'getitem', 'sum', 'transpose', 'reshape', 'dot', 'dotc', 'outer', 'prod', 'buffer', 'buffer', 'powbin', 'fftfilter', 'symvec', 'maxmin']
+    kinds = ['ew', 'ew', 'bin', 'bin', 'binc', 'getitem', 'sum', 'transpose', 'reshape', 'dot', 'dotc', 'outer', 'prod', 'buffer', 'buffer', 'powbin', 'fftfilter', 'symvec', 'maxmin', 'bufferiop']
     prog = gen_program(rng, maxsteps=6 if tier == 'quick' else 12, kinds=kinds)
     if rng.random() < 0.08:
         # symvec of a non-symmetric square matrix with an explicit UPLO through the dispatcher, then vecsym, then whatever follows
